@@ -74,7 +74,7 @@ def run(ctx):
     n = 150 if ctx.tier == "quick" else 2000
     done = 0
     while done < n and ctx.time_left() > 10:
-        batch = gen_valid_graphs(ctx, min(60, n - done))
+        batch = gen_valid_graphs(ctx, min(60, n - done), corpus=True)
         done += len(batch)
         # ---- (a) strict JSON and the round trip of infinities
         reqs = []
